@@ -43,6 +43,19 @@ struct StubSolverD final : bspline::interpolation::internal::ISolver<T> {
   T &x(size_t) override { return t; }
 };
 
+// recording solver: the region evaluator models it natively (bsv/interp.py, class RecSolverModel): it records the
+// linear system interpolate() assembles - which rows, which columns, which right-hand sides - and hands back opaque
+// unknowns x(i) after solve(); out-of-range rows / columns and reading x() before solve() are reported.
+template <typename T>
+struct RecSolver final : bspline::interpolation::internal::ISolver<T> {
+  T t;
+  explicit RecSolver(size_t n) : bspline::interpolation::internal::ISolver<T>(n) {}
+  T &M(size_t, size_t) override { return t; }
+  T &b(size_t) override { return t; }
+  void solve() override {}
+  T &x(size_t) override { return t; }
+};
+
 template <typename T, size_t A>
 Spline<T, A> mk() {
   std::vector<T> knots(A + 2);
@@ -261,6 +274,7 @@ void interp() {
   std::array<Boundary<T>, O - 1> bo{};
   (void)interpolate<T, O, StubSolver<T>>(sup, y, bo);
   (void)interpolate<T, O, StubSolverD<T>>(sup, y, bo);
+  (void)interpolate<T, O, RecSolver<T>>(sup, y, bo);
   (void)bspline::interpolation::internal::defaultBoundaries<T, O>();
 }
 
